@@ -155,9 +155,11 @@ func (sc *Scheduler) Schedule(ctx context.Context, g *ExecutionGraph, done chan 
 					_ = sc.teardownNode(node)
 				}()
 
+				executed := false
 			ExecRepeat:
 				for setupSucceed && !sc.isCanceled() {
 					execErr := sc.execNode(ctx, node)
+					executed = true
 					if execErr != nil {
 						status := node.State().Status
 						switch {
@@ -211,7 +213,12 @@ func (sc *Scheduler) Schedule(ctx context.Context, g *ExecutionGraph, done chan 
 				}
 				// finish the node
 				if node.State().Status == NodeStatusRunning {
-					node.setStatus(NodeStatusSuccess)
+					if executed {
+						node.setStatus(NodeStatusSuccess)
+					} else {
+						// canceled before the command was started
+						node.setStatus(NodeStatusCancel)
+					}
 				}
 				if err := sc.teardownNode(node); err != nil {
 					sc.setLastError(err)
